@@ -186,7 +186,8 @@ CHECKS = {
              "constituents are inherited by reference. Thorough tier: monitored compilation of all 2181 bundled definitions in "
              "both layouts and of the 13 bundled routines - structural clauses M1-M7 on the emitted text (declaration shape, sorts by "
              "fixpoint with one sort per local, declared-before-use, linear ownership, final return, layout agreement modulo DUP, "
-             "no parser object in the text) and M8, the callbacks' WF postcondition on every real node registered - run-time "
+             "no parser object in the text), M9 (each part's attribute list against that part's text: MEM_WRITE iff STOREW, MEM_READ iff "
+             "LOADW, BRANCH iff the jump flag, NEW iff a .new operand, WPRED / WRITE_Pn iff predicate writes) and M8, the callbacks' WF postcondition on every real node registered - run-time "
              "checking, reported separately under monitored_corpus_run, never counted as proved; it shows which shipped "
              "instructions reach an open finding (F1r, F4r, F21d/e).",
         design_ref="DESIGN.md section 3, C01",
@@ -329,7 +330,7 @@ def main():
         }],
         "checks": checks,
         "not_applicable": na,
-        "notes": "Exit codes of bin/check: 0 held (KNOWN-FINDING lines allowed), 1 violation, 2 undecided, 3 checker fault. "
+        "notes": "Exit codes of bin/check: 0 held (KNOWN-FINDING lines allowed), 1 violation, 3 checker fault without violation, 2 undecided. "
                  "Known findings: known_findings.json.",
     }
     with open(os.path.join(HERE, "MANIFEST.json"), "w") as f:
